@@ -12,7 +12,7 @@ EXPLANATION = (
     'true for the entry read from the very .trashinfo being deleted, and there is no other '
     'DELETE.  The fnmatch grammar itself is stdlib (A2).')
 ASSUMPTIONS = ['A2 fnmatchcase implements shell-style, case-sensitive matching']
-MINIMUM = {'R12.1': 2, 'R12.2': 2, 'R12.3': 4}
+MINIMUM = {'R12.1': 2, 'R12.2': 2, 'R12.3': 4, 'R12.4': 1, 'R12.5': 1}
 
 
 def check(ctx):
@@ -28,6 +28,18 @@ def check(ctx):
                                         x.fn.startswith('re.')):
                 matches.append((n, x, pol))
     ctx.require(matches, 'C12: no fnmatch-based predicate found (anchor vanished)')
+    for n in set(m[0] for m in matches):
+        c, pol = unwrap_not(n.data['cond'], n.data['pol'])
+        if not pol:
+            continue
+        foreign = [a for a in flat(c) if not (isinstance(a, Call) and
+                                              a.fn.startswith('fnmatch.'))
+                   and not is_const(a, False)]
+        ctx.ob('R12.3', 'the decision to delete is, on every alternative, the match of this '
+                        'entry', not foreign, node=n,
+               message='the value deciding the deletion may also be %s (a remembered / '
+                       'defaulted verdict instead of matching this entry\'s own path)'
+                       % short(foreign[0], 100) if foreign else '')
     seen = set()
     for n, x, pol in matches:
         if cid(x) in seen:
@@ -112,3 +124,44 @@ def check(ctx):
                node=d, message='trash-rm deletes %s without the pattern having matched the '
                                'path recorded in that entry\'s own .trashinfo'
                                % short(d.data['roles']['path'], 100))
+    # ---- R12.5 payload and .trashinfo go together: the payload delete is guarded by a
+    # no-follow presence probe (a dangling-link payload exists)
+    for d in deletes:
+        kinds, infos = classify(d.data['roles']['path'])
+        if kinds != {'payload'}:
+            continue
+        verdicts = []
+        for c, pol, n in guards(b, d.id):
+            c2, p2 = unwrap_not(c, pol)
+            pn = probe_result_of(c2)
+            if pn is not None and p2 and g.n(pn).data['role'] == 'presence' and \
+                    alt_ids(g.n(pn).data['args'][0]) == alt_ids(d.data['roles']['path']):
+                verdicts.append(not g.n(pn).data['follow'])
+        ctx.ob('R12.5', 'the payload of a matching entry is removed whatever it is (probe does '
+                        'not follow links)', bool(verdicts) and all(verdicts), node=d,
+               message='the payload is skipped when a link-following existence test fails: a '
+                       'dangling symlink payload stays in files/ while its .trashinfo is '
+                       'removed')
+    # ---- R12.4 the verdict for one entry does not depend on the entries before it
+    from .c19 import entry_iterations
+    for it in entry_iterations(b):
+        head = [p for p, l in g.pred[it.id] if g.n(p).kind == 'loop']
+        if not head:
+            continue
+        region = g.reachable_from(it.id, blocked=[head[0]])
+        carried = []
+        for n in b.nodes('store', 'store-item', 'append'):
+            if n.id not in region:
+                continue
+            tgt = n.data.get('obj') if n.kind == 'store' else \
+                (n.data.get('base') if n.kind == 'store-item' else n.data.get('list'))
+            for o in flat(tgt) if tgt is not None else []:
+                site = getattr(o, 'site', None)
+                if isinstance(o, (Obj, ListObj, DictObj)) and site is not None and \
+                        site in b.live and site not in region:
+                    carried.append(n)
+        ctx.ob('R12.4', 'no state is carried from one trashed entry to the next', not carried,
+               node=carried[0] if carried else it,
+               message='while handling one entry trash-rm writes into an object that outlives '
+                       'it (%s): the verdict for an entry can be a remembered verdict of an '
+                       'earlier one' % (carried[0].src if carried else ''))
